@@ -263,7 +263,7 @@ def _install_add_hook(run):
     seams.on_add = on_add
 
 
-def run_rt(prog, prefix, lateness_menu=None, step_budget=20000):
+def run_rt(prog, prefix, lateness_menu=None, step_budget=4000):
     """One RT-virtual execution. -> (points, choices, result dict)"""
     from mc import seams, vthreading as vt
     tempos = {cid: spec[1] for cid, spec in prog.get('clocks', {}).items()
@@ -342,6 +342,7 @@ def _qlist(run, q):
 def _force_finish(ex):
     from mc import vthreading as vt
     vt.SCHED.deadlock = None
+    vt.SCHED.livelock = None
     try:
         vt.SCHED.teardown()
     except Exception as e:
